@@ -56,9 +56,10 @@ def rot (now : Int) (s : Sender) : Sender := openLog now (rotate now (closeLog s
 
 inductive Op
   | relay (now : Int) (id : Nat) (sec : Option Nat)
-  | conn (p : Nat)
+  | conn (p : Nat)                  -- NewClientHandlerInternal with SyncClient already under way: connected, syncing
+  | attach (p : Nat)                -- only its synchronous part (Endpoint::AddClient): connected, SyncClient not started yet
   | disc (p : Nat)
-  | replay (now : Int) (p : Nat)
+  | replay (now : Int) (p : Nat)    -- SyncClient (… ReplayLog, syncing cleared)
   | rotate (now : Int)
   | timer (now : Int)
   | ack (p : Nat) (v : Int)
@@ -81,6 +82,9 @@ def stepOp (c : Codec) (limit : Nat) (n : Node) : Op → Node × List Step
     (n2, [⟨.relay now id sec (if logged then some (nsEncode (c.enc e)).length else none) (newNames n.snd snd2).head?, n2.pos⟩])
   | .conn p =>
     let n' := n.setPeer p (fun q => { q with connected := true, syncing := true })
+    (n', [⟨.conn p, n'.pos⟩])
+  | .attach p =>
+    let n' := n.setPeer p (fun q => { q with connected := true })
     (n', [⟨.conn p, n'.pos⟩])
   | .disc p =>
     let n' := n.setPeer p (fun q => { q with connected := false })
@@ -131,7 +135,7 @@ def Op.time : Op → Option Int
   | .timer now => some now | .crashStart now _ _ => some now | _ => none
 
 def Op.peerOk : Op → Bool
-  | .conn p => p < 6 | .disc p => p < 6 | .replay _ p => p < 6 | .ack p _ => p < 6 | .recv p _ => p < 6 | _ => true
+  | .conn p => p < 6 | .attach p => p < 6 | .disc p => p < 6 | .replay _ p => p < 6 | .ack p _ => p < 6 | .recv p _ => p < 6 | _ => true
 
 /-- Every timed operation happens strictly after the previous one (≥ 1 µs per event), peers are 0..5. -/
 def ClockOK : Int → List Op → Prop
@@ -140,6 +144,31 @@ def ClockOK : Int → List Op → Prop
       match op.time with
       | some now => t < now ∧ ClockOK now r
       | none => ClockOK t r
+
+/-! ## the view the clause no_live_before_sync judges -/
+
+/-- What an observer of connections and queues sees of one operation (the same events the driver feeds to `syncStep`):
+    whom an event was queued for live, which connections appeared/disappeared, when SyncClient returned and with which
+    `syncing` flag. -/
+def syncObs (c : Codec) (limit : Nat) (n : Node) : Op → List SyncEv
+  | .relay _ _ sec => [.live (relay n.peers n.master (zonesOf n.satRev n.topRev sec)).live]
+  | .conn p => [.attach p]
+  | .attach p => [.attach p]
+  | .disc p => [.detach p]
+  | .replay now p => [.synced p ((stepOp c limit n (.replay now p)).1.peers p).syncing]
+  | .crashStart _ _ _ => [.restart]
+  | _ => []
+
+def runSync (c : Codec) (limit : Nat) : Node → List Op → List SyncEv
+  | _, [] => []
+  | n, op :: r => syncObs c limit n op ++ runSync c limit (stepOp c limit n op).1 r
+
+/-- No connection is ever added without SyncClient being under way at once (the harness's `conn`; production's
+    NewClientHandlerInternal only queues SyncClient: `attach`). -/
+def NoWindow : List Op → Prop
+  | [] => True
+  | .attach _ :: _ => False
+  | _ :: r => NoWindow r
 
 /-! ## two nodes (F-C12c): what one node's ReplayLog queues is handled by the other node's MessageHandler -/
 
